@@ -108,6 +108,7 @@ type c15Final struct {
 	TMax int64      `json:"tmax"`
 	Want c15Content `json:"want"`
 	Got  c15Content `json:"got"`
+	MDup bool       `json:"mdup"` // two refs of one label set in the checkpoint's metadata record: repeat the history
 	Racy []c15Ex    `json:"racy"` // exemplars whose replay outcome is a race in loadWAL: not compared
 	Unk  int        `json:"unk"`
 	KF   []string   `json:"kf"`
@@ -824,6 +825,11 @@ func TestVerifC15Replay(t *testing.T) {
 				}
 				conc := c15MakeConc(verifh.Seed()*31 + int64(i))
 				res := c15Run(i, behs[i], conc, root, labs)
+				// the order inside the checkpoint's metadata record used to be Go map order: a wrong
+				// order shows only in some runs, so such histories are repeated
+				for rep := 0; behs[i].Fin.MDup && rep < 7 && len(res.viol) == 0 && res.infra == ""; rep++ {
+					res = c15Run(i, behs[i], conc, root, labs)
+				}
 				mu.Lock()
 				if res.infra != "" && infra == "" {
 					infra = res.infra
